@@ -85,12 +85,21 @@ func BuildCopyBin(scn M, rng *rand.Rand) (oids []int, st *binStream) {
 		st.add(c[:1], c[1:])
 		for j, fv := range row {
 			f := AsM(fv)
+			// a length word corrupted to a value far beyond what the stream holds
+			huge := S(corrupt, "kind") == "len" && I(corrupt, "row") == ri+1 && I(corrupt, "col") == j+1
+			hugeLen := []int{0x7FFFFFFF, 0x80000000, 0xFFFFFFFE, 1 << 30, 0xC0000000}[rng.Intn(5)]
 			switch S(f, "c") {
 			case "null":
 				l := u32(-1)
+				if huge {
+					l = u32(hugeLen)
+				}
 				st.add(l[:2], l[2:])
 			case "e":
 				l := u32(0)
+				if huge {
+					l = u32(hugeLen)
+				}
 				st.add(l[:2], l[2:])
 				f["val"] = pgw.Dig(nil)
 			default:
@@ -111,6 +120,9 @@ func BuildCopyBin(scn M, rng *rand.Rand) (oids []int, st *binStream) {
 				}
 				f["val"] = pgw.Dig([]byte(canon))
 				l := u32(len(enc))
+				if huge {
+					l = u32(hugeLen)
+				}
 				st.add(l[:2], l[2:])
 				// n cells: split the value into n non-empty pieces
 				step := len(enc) / n
